@@ -75,6 +75,10 @@ def run(pid, tier, seed, gens=None):
             if res.violation:
                 raise common.MachineryFailure("MC_Cut(%s) violates %s on its own model:\n%s" % (u, res.violation["name"], res.violation["trace_text"][-2000:]))
             v.add_tlc(res, "MC_Cut U=%s: raw and raw[:k] in lockstep (Inv_C04_Cut, Inv_C04_CutBeyond)" % u)
+    if pid == "C01":
+        # parse-then-serialise of runs of bit fields wider than the packet machine's integers (BitsWide.tla)
+        from props import C07
+        C07.wide_part(v, quick, seed, "C01")
     if pid == "C12":
         # failures of pack(): out-of-range / wrongly typed values, colliding positions, failing before-pack hooks
         from lib import valuesprofile as vp
